@@ -46,9 +46,8 @@ def judge_asi(text, out, ref):
         if out.kind == 'accept':
             if out.tree == ref.neutral:
                 return None
-            return ('C04|tree-differs|%s|layouts=%s' % (
-                R3.diff_kind(out.tree, ref.neutral),
-                layout_classes(text, ref)),
+            return ('C04|tree-differs|%s' % (
+                R3.diff_kind(out.tree, ref.neutral)),
                 R3.first_diff(out.tree, ref.neutral))
         off = judge.impl_error_offset(text, out.msg)
         if off is None:
